@@ -46,6 +46,7 @@ type scenario struct {
 	name    string
 	threads [][]op
 	nsubs   int
+	setup   []op // executed sequentially before the threads start (pre-registered subscribers)
 }
 
 func (o op) String() string {
@@ -73,20 +74,24 @@ func scenarios(thorough bool) []scenario {
 	B := func(id int) op { return op{kind: opPostB, id: id} }
 	X := op{kind: opStop}
 	sc := []scenario{
-		{"two-posters", [][]op{{S(0), A(1), A(2)}, {A(3), B(4)}}, 1},
-		{"subscribe-vs-post", [][]op{{S(0)}, {A(1), A(2)}}, 1},
-		{"unsubscribe-vs-post", [][]op{{S(0), U(0)}, {A(1), A(2)}}, 1},
-		{"stop-vs-post", [][]op{{S(0), X}, {A(1), A(2)}}, 1},
-		{"stop-vs-subscribe-post", [][]op{{X}, {S(0), A(1)}}, 1},
-		{"two-subscribers", [][]op{{S(0), A(1)}, {SB(1), B(2), A(3)}}, 2},
+		{"two-posters", [][]op{{S(0), A(1), A(2)}, {A(3), B(4)}}, 1, nil},
+		{"subscribe-vs-post", [][]op{{S(0)}, {A(1), A(2)}}, 1, nil},
+		{"unsubscribe-vs-post", [][]op{{S(0), U(0)}, {A(1), A(2)}}, 1, nil},
+		{"stop-vs-post", [][]op{{S(0), X}, {A(1), A(2)}}, 1, nil},
+		{"stop-vs-subscribe-post", [][]op{{X}, {S(0), A(1)}}, 1, nil},
+		{"two-subscribers", [][]op{{S(0), A(1)}, {SB(1), B(2), A(3)}}, 2, nil},
+		// three subscribers of one type: an unsubscribe of the first / middle one races a Post that is walking the list
+		{"unsubscribe-first-of-three-vs-post", [][]op{{U(0)}, {A(1), A(2)}}, 3, []op{S(0), S(1), S(2)}},
+		{"unsubscribe-middle-of-three-vs-post", [][]op{{U(1)}, {A(1)}, {A(2)}}, 3, []op{S(0), S(1), S(2)}},
 	}
 	if thorough {
 		sc = append(sc,
-			scenario{"three-threads-unsub", [][]op{{S(0), A(1)}, {A(2), A(3)}, {SB(1), U(1)}}, 2},
-			scenario{"three-threads-stop", [][]op{{S(0), A(1)}, {A(2), B(3)}, {X}}, 1},
-			scenario{"unsub-vs-stop", [][]op{{S(0), U(0)}, {X}, {A(1)}}, 1},
-			scenario{"double-unsub", [][]op{{S(0), U(0)}, {U(0)}, {A(1), A(2)}}, 1},
-			scenario{"resubscribe", [][]op{{S(0), U(0), S(1)}, {A(1), A(2), A(3)}}, 2},
+			scenario{"three-threads-unsub", [][]op{{S(0), A(1)}, {A(2), A(3)}, {SB(1), U(1)}}, 2, nil},
+			scenario{"three-threads-stop", [][]op{{S(0), A(1)}, {A(2), B(3)}, {X}}, 1, nil},
+			scenario{"unsub-vs-stop", [][]op{{S(0), U(0)}, {X}, {A(1)}}, 1, nil},
+			scenario{"double-unsub", [][]op{{S(0), U(0)}, {U(0)}, {A(1), A(2)}}, 1, nil},
+			scenario{"resubscribe", [][]op{{S(0), U(0), S(1)}, {A(1), A(2), A(3)}}, 2, nil},
+			scenario{"unsubscribe-two-of-four-vs-posts", [][]op{{U(0), U(2)}, {A(1)}, {B(2), A(3)}}, 4, []op{S(0), SB(1), S(2), SB(3)}},
 		)
 	}
 	return sc
@@ -106,7 +111,25 @@ func body(sc scenario) func(x *vsched.Exec) {
 		for t := range sc.threads {
 			w.ops[t] = append([]op(nil), sc.threads[t]...)
 		}
-		for t := range w.ops {
+		// pre-registered subscribers: their subscribe op is recorded as thread -1 history
+		setupOps := append([]op(nil), sc.setup...)
+		x.Deterministic(func() {
+			for i := range setupOps {
+				o := &setupOps[i]
+				o.start = int64(vtime.Now().UnixNano())
+				var sub *event.Subscription
+				if o.both {
+					sub, o.err = w.d.Subscribe(evA{}, evB{})
+				} else {
+					sub, o.err = w.d.Subscribe(evA{})
+				}
+				w.subs[o.sub] = sub
+				o.end = int64(vtime.Now().UnixNano())
+				o.done = true
+			}
+		})
+		w.ops = append(w.ops, setupOps)
+		for t := range sc.threads {
 			t := t
 			x.Spawn(fmt.Sprintf("T%d", t), func() {
 				for i := range w.ops[t] {
@@ -175,10 +198,14 @@ func check(x *vsched.Exec, sc scenario, w *world) {
 		unsubStart, unsubEnd := inf, inf
 		for ti := range w.ops {
 			for oi := range w.ops[ti] {
-				o := &w.ops[ti][oi]
-				if o.kind == opSub && o.sub == si {
+				if o := &w.ops[ti][oi]; o.kind == opSub && o.sub == si {
 					subOp = o
 				}
+			}
+		}
+		for ti := range w.ops {
+			for oi := range w.ops[ti] {
+				o := &w.ops[ti][oi]
 				if o.kind == opUnsub && o.sub == si && o.start < unsubStart && subOp != nil && o.start > subOp.end {
 					unsubStart, unsubEnd = o.start, o.end
 				}
